@@ -477,15 +477,63 @@ func Flush(wall float64, code int) {
 // operation, mutex, cond) with a frame inside github.com/rminnich/go9p, the
 // logger goroutine and goroutines parked in a transport Read excepted. An
 // empty result means nothing is stuck inside the library.
+//
+// A goroutine counts only if it is found waiting at the same place in two
+// dumps taken two seconds apart: on a machine that is merely slow, requests
+// pass through the library's hand-over points (Respond waiting for the sender,
+// a caller waiting for its reply) all the time, and one dump cannot tell a
+// request that is on its way from one that is stuck.
 func BlockedInGo9p() string {
-	buf := make([]byte, 1<<22)
-	n := runtime.Stack(buf, true)
+	first := blockedInGo9pOnce()
+	if len(first) == 0 {
+		return ""
+	}
+	time.Sleep(2 * time.Second)
+	second := blockedInGo9pOnce()
+	var ids []string
+	for id := range first {
+		if blk, ok := second[id]; ok && sameStack(first[id], blk) {
+			ids = append(ids, id)
+		}
+	}
+	sort.Strings(ids)
 	var out []string
+	for _, id := range ids {
+		out = append(out, second[id])
+	}
+	return strings.Join(out, "\n\n")
+}
+
+// sameStack compares the function lines of two stack blocks (not the
+// argument values or the "N minutes" of the header).
+func sameStack(a, b string) bool {
+	fn := func(s string) string {
+		var out []string
+		for _, l := range strings.Split(s, "\n")[1:] {
+			if strings.HasPrefix(l, "\t") {
+				continue
+			}
+			if i := strings.LastIndex(l, "("); i > 0 {
+				l = l[:i]
+			}
+			out = append(out, l)
+		}
+		return strings.Join(out, "|")
+	}
+	return fn(a) == fn(b)
+}
+
+// blockedInGo9pOnce maps goroutine id -> stack block for one dump.
+func blockedInGo9pOnce() map[string]string {
+	buf := make([]byte, 1<<24)
+	n := runtime.Stack(buf, true)
+	out := map[string]string{}
 	for _, blk := range strings.Split(string(buf[:n]), "\n\n") {
 		head, _, _ := strings.Cut(blk, "\n")
 		if !strings.HasPrefix(head, "goroutine ") {
 			continue
 		}
+		gid, _, _ := strings.Cut(strings.TrimPrefix(head, "goroutine "), " ")
 		waiting := false
 		for _, w := range []string{"[chan send", "[chan receive", "[select", "[semacquire", "[sync.Mutex.Lock", "[sync.Cond.Wait", "[sync.RWMutex"} {
 			if strings.Contains(head, w) {
@@ -514,8 +562,8 @@ func BlockedInGo9p() string {
 			if strings.Contains(inner, "(*Conn).send") || strings.Contains(inner, "(*Clnt).send") {
 				continue
 			}
-			out = append(out, blk)
+			out[gid] = blk
 		}
 	}
-	return strings.Join(out, "\n\n")
+	return out
 }
